@@ -124,7 +124,7 @@ def _anc(parent, f):
 def universe(tier):
     shapes = ["S1", "S2", "S5", "S4", "S3"]
     for sk in shapes:
-        maxe = 2 if (tier == "quick" or sk in ("S3", "S4")) else 3
+        maxe = 2 if tier == "quick" else 3
         for edges in edge_sets(SHAPES[sk], maxe):
             for kg in (KG_Q if tier == "quick" else KG_T):
                 if not edges and kg != KG_Q[0]:
@@ -191,7 +191,7 @@ def run(ctx):
     explore(ctx, universe(ctx.tier), "mc.props.c04:evaluate", st, payload=payload, sample_of=sample, trait=trait)
     common.vacuity_guard(ctx, st, frac=0.6)
     cov = st.coverage(
-        "product universe: 5 tree shapes (<= 4 leaves, <= 2 container levels) x every set of <= 2 (thorough: <= 3 for the smaller shapes) "
+        "product universe: 5 tree shapes (<= 4 leaves, <= 2 container levels) x every set of <= 2 (thorough: <= 3) "
         "edges between unrelated nodes in either declaration direction that RefDeps finds acyclic x (kind, gap) x spelling (relative / "
         "absolute / precedes) x pin (none / dated container / dated leaf) x resources x {ASAP, ALAP, ALAP with explicit sink ends}; "
         "states = distinct schedule observations; transitions = placements + bookings; non-trivial = some checked edge is tight "
